@@ -114,6 +114,14 @@ def drive(run: dict, data: bytes) -> dict:
         fcntl.fcntl(w2, F_SETPIPE_SZ, 4096)
     sys.stdout.flush()
     sys.stderr.flush()
+    fault = run.get("fault") or {}
+    # a consumer that is gone from the start: close before the child exists, so that no write can win a race
+    pre_out = fault.get("kind") == "close_stdout" and fault.get("at") == 0
+    pre_err = fault.get("kind") == "close_stderr" and fault.get("at") == 0
+    if pre_out:
+        os.close(r1)
+    if pre_err:
+        os.close(r2)
     pid = os.fork()
     if pid == 0:
         _system_child(run, r0, w1, w2)
@@ -124,24 +132,22 @@ def drive(run: dict, data: bytes) -> dict:
     rng = random.Random(run.get("drain_seed", 0))
     sizes = run.get("drain_sizes") or [4096]
     policy = run.get("drain_policy", "random")
-    fault = run.get("fault") or {}
     chunks = list(run.get("chunks") or [])
     out, err = bytearray(), bytearray()
     probes = {"full_seen": 0, "chunks_written": 0, "epipe_closed": False}
     pos = ci = 0
-    open_fds = {r1: "out", r2: "err"}
+    open_fds = {}
+    if not pre_out:
+        open_fds[r1] = "out"
+    else:
+        probes["epipe_closed"] = True
+    if not pre_err:
+        open_fds[r2] = "err"
     w0_open = True
     buf = array.array("i", [0])
     deadline = time.time() + WALL_RUN
     close_out_at = fault.get("at") if fault.get("kind") == "close_stdout" else None
     close_err_at = fault.get("at") if fault.get("kind") == "close_stderr" else None
-    if close_out_at == 0:
-        os.close(r1)
-        del open_fds[r1]
-        probes["epipe_closed"] = True
-    if close_err_at == 0:
-        os.close(r2)
-        del open_fds[r2]
     try:
         while open_fds or w0_open:
             if time.time() > deadline:
@@ -388,16 +394,27 @@ def main(argv):
                 again = [reference(ptxt, exp["mask"], exp["inp"], exp["out"]) for _ in range(2)]
                 if any(a != ref for a in again):
                     verdict, detail = "note:unstable-reference", detail
+            # When a consumer leaves after K > 0 bytes, whether the producer's next write meets EPIPE depends on
+            # whether that write was issued before the close: a race the kernel does not let the simulator own.
+            # Exit status and stderr of such runs are therefore reach probes, kept out of the replay-compared log.
+            flt = run.get("fault") or {}
+            racy = flt.get("kind") in ("close_stdout", "close_stderr") and flt.get("at", 0) > 0
+            tail = {
+                "exit": res.get("exit"),
+                "err_sha": hashlib.sha256(res["err"]).hexdigest()[:16],
+                "err_len": len(res["err"]),
+            }
             ev = {
                 "i": i,
                 "op": "run",
                 "program": run["program"],
                 "argv": run["argv"],
-                "exit": res.get("exit"),
+                "exit": None if racy else tail["exit"],
                 "out_sha": hashlib.sha256(res["out"]).hexdigest()[:16],
                 "out_len": len(res["out"]),
-                "err_sha": hashlib.sha256(res["err"]).hexdigest()[:16],
-                "err_len": len(res["err"]),
+                "err_sha": None if racy else tail["err_sha"],
+                "err_len": None if racy else tail["err_len"],
+                "timing_dependent": tail if racy else None,
                 "verdict": verdict,
                 "detail": detail,
                 "model": exp,
